@@ -21,7 +21,9 @@ ASSUMPTIONS = ["the 5G reliability sequence is the pinned copy /verif/data/polar
                "kverif/ref/soft.py: Kronecker power, bit-reversal, float64 textbook SC (self-checked)",
                "float32 vs float64: the min-sum regime is compared for |LLR|<=100 with reference decision margin>=1e-4; the sum-product regime only when all reference "
                "intermediate magnitudes stay <=12 with margin>=1e-2; other cases are skipped and counted",
-               "BP-polar documents that it rejects polar_i=True: that configuration must raise"]
+               "BP-polar documents that it rejects polar_i=True: that configuration must raise",
+               "clean-LLR clause, sum-product regime: skipped (and counted) when the exact weakest information-bit decision LLR is below 1e-25 - long boxplus chains of small LLRs "
+               "(N>=512, rate>0.85, |LLR|=0.5) underflow to exactly 0 in float32 whatever the implementation; min-sum has no such limit and is always judged"]
 CHK = "c11:check_case"
 
 
@@ -141,6 +143,15 @@ def check_cell(ctx, N, k, frozen_zeros, polar_i, mask_list=None, regimes=("sum_p
         dcell = {**cell, "decoder": dname, "regime": regime}
         for mag in (0.5, 2.0, 10.0, 100.0):
             llr = ((1 - 2 * Xs) * mag).astype(np.float32)
+            if regime == "sum_product":
+                # exact-arithmetic size of the weakest information-bit decision LLR (the same for every codeword by symmetry):
+                # below float32 range the boxplus chain underflows to exactly 0 in any float32 implementation, so the
+                # case is outside what floating-point LLRs can represent (counted, not judged)
+                nat0 = llr[0].astype(np.float64)[RS.bit_reverse_perm(m)] if polar_i else llr[0].astype(np.float64)
+                _, dl, _ = RS.sc_decode(nat0, mask, fv, "sum_product")
+                if mask.any() and np.abs(dl[mask]).min() < 1e-25:
+                    ctx.cls("clean_sum_product_underflows_float32_skipped")
+                    continue
             with quiet():
                 ok, out = ctx.call(lambda: d(torch.from_numpy(llr)), "C11.c_clean_raises", dcell, {**case, "decoder": dname, "regime": regime, "mag": mag}, checker=CHK)
             if not ok:
